@@ -1557,6 +1557,8 @@ class C13(ValueTextMixin, Check):
         clause = data.get('clause') or ''
         if data.get('kind') != 'impl-violates':
             self.run(ctx)
+        elif self.vt_replay(ctx, clause, w):
+            pass
         elif 'move' in w:
             obs = self.move_case(w['move'][0], w['move'][1], w['name'], w['value'], w.get('replace', True))
             if obs is not None and (obs[0] != obs[1] or (obs[2][0] is not None and obs[0] != obs[2])):
